@@ -10,7 +10,7 @@ const (
 	sec = time.Second
 )
 
-var hLattice = []time.Duration{50 * ms, 100 * ms, 200 * ms, 500 * ms, 1 * sec, 2 * sec, 3 * sec}
+var hLattice = []time.Duration{50 * ms, 100 * ms, 200 * ms, 500 * ms, 1 * sec, 2 * sec, 3 * sec, 5 * sec, 10 * sec}
 
 // GenPlan builds the seed-th plan of a family.
 func GenPlan(family string, seed uint64) *Plan {
